@@ -337,12 +337,50 @@ impl Engine for ConcEngine {
             sim.hold_steps = *pw.pick(&[15u64, 40, 120]);
             knobs.insert("pin_window".into(), 1);
         }
+        // "sandwich" family (own tape, C08/C16/C18): three single-block records lie next to each other
+        // on the device; a reader of the middle one is held with its extent pinned while a writer
+        // supersedes all three and flushes - the retirement pass then holds three adjacent extents
+        // of which the middle one must be left alone
+        let mut sd = Tape::fresh(mix(seed, 0x5A4D));
+        let mut sim = sim;
+        let mut store = store;
+        let mut keys = keys;
+        if matches!(property, "C08" | "C16" | "C18") && persistent && knobs.get("pin_window").is_none() && sd.chance(1, 10) {
+            keys = vec![b"sa".to_vec(), b"sb".to_vec(), b"sc".to_vec()];
+            store.cache = false;
+            store.ttl = false;
+            store.sweeper = None;
+            store.data_blocks = 16;
+            sim.shards = 1;
+            sim.workers = 1;
+            sim.strategy = Strategy::Starve(crate::sched::HOLD_ANY);
+            sim.hold_sites = vec!["after_sector_load".to_string()];
+            sim.hold_steps = *sd.pick(&[80u64, 200, 500]);
+            let mut writer = Vec::new();
+            let mut order = vec![0usize, 1, 2];
+            for i in (1..order.len()).rev() {
+                order.swap(i, sd.below(i as u32 + 1) as usize);
+            }
+            for (n, key) in order.into_iter().enumerate() {
+                writer.push(if sd.chance(1, 3) { Op::Delete { key, ts: Ts::Auto } } else { Op::Insert { key, val: Val { len: 2100 + n, kind: ValKind::Plain }, ts: Ts::Auto, ttl: 0, bytes: false } });
+            }
+            writer.push(Op::Flush);
+            let reader = vec![
+                if sd.chance(1, 4) { Op::Range { start: Bound::Empty, end: Bound::Max, limit: 100 } } else { Op::Get { key: 1, bytes: sd.chance(1, 2) } },
+                Op::Get { key: 1, bytes: false },
+            ];
+            clients = vec![reader, writer];
+            if sd.chance(1, 2) {
+                clients.push(vec![Op::Flush]);
+            }
+            knobs.insert("prefill".into(), 3);
+            knobs.insert("prefill_flush".into(), 1);
+            knobs.insert("sandwich".into(), 1);
+        }
         // "expired rmw" family (own tape): a key arrives already expired while the sweeper runs,
         // and one client follows up with two automatic writes in the same clock tick - the
         // versions handed out around a retirement somebody else performed must still increase
         let mut x = Tape::fresh(mix(seed, 0xE8A1));
-        let mut sim = sim;
-        let mut store = store;
         if matches!(property, "C11" | "C18") && ttl && x.chance(1, 8) {
             sim.tick_ns = 0;
             store.sweeper = Some(SweeperCfg { interval_ms: 1, sample_size: 1 + x.below(3) as usize });
@@ -422,7 +460,7 @@ impl Engine for ConcEngine {
             let ops = vec![Op::Insert { key: i, val: Val { len: 900 + i, kind: ValKind::Plain }, ts: Ts::Auto, ttl: 0, bytes: false }];
             client_loop(sim, &store, &sc.keys, &ops, 200 + i, sc.store.format, &tl, &history, &values);
         }
-        if prefill > 0 && sc.store.persistent && sc.seed % 2 == 0 {
+        if prefill > 0 && sc.store.persistent && (sc.seed % 2 == 0 || sc.knob("prefill_flush", 0) == 1) {
             let _ = store.flush();
         }
         let mut handles = Vec::new();
